@@ -101,6 +101,16 @@ package record
 //@     requires [new_column_pad] k >= 1 && arg1 == rn0
 //@   call .PadColVal on rec.ColVals[recSchemaIdx]
 //@     requires [missing_field_pad] arg1 == 1
+// ... and the new column's name is a COPY of the field key (interned): on the write path the key is a view into the
+// request buffer, which the next request overwrites while the column lives on in the memtable.
+//@   ghost copied string = ""
+//@   ghost have bool = false
+//@   call InternSafe
+//@     requires [name_of_the_field_being_added] arg0 == fields[pointSchemaIdx].Key
+//@     set copied = ret0
+//@     set have = true
+//@   store Field.Name
+//@     requires [column_name_is_the_interned_copy] have && val == copied
 
 
 // The row count of a record is the length of its last (time) column; reading it writes nothing.
